@@ -4,11 +4,30 @@ import gridlib as gl
 import vf
 
 
+def scale_history(rnd, label):
+    """the documented ways of passing a scale correction: local polynomial grids, several outputs, both overloads,
+    all outputs together (-1) and single outputs, classic and parents-first, tolerances placed at several ranks"""
+    outs = rnd.choice([1, 2, 2, 3])
+    line, info = gl.make_line(rnd, "localp", outs=outs, d=rnd.choice([1, 2, 2, 3]))
+    L = ["SCEN " + label, line, "load 1"]
+    ep = 1
+    for _ in range(rnd.randint(2, 4)):
+        out = rnd.choice([-1, -1] + list(range(outs)))
+        L.append("surpl %d %d %s %s %d" % (rnd.choice([1, 2, 3, 4, 6]), out, rnd.choice(["classic", "classic", "parents"]),
+                                          gl.ivec(gl.rnd_limits(rnd, info["d"], 1, 4, 0.7)), rnd.choice([1, 2])))
+        if rnd.random() < 0.8:
+            ep += 1
+            L.append("load %d" % ep)
+    return "\n".join(L) + "\n"
+
+
 def run(ctx):
     rnd = random.Random(ctx.seed)
-    n = 240 if ctx.quick else 4000
+    n = 360 if ctx.quick else 6000
     scens = [gl.history(rnd, "h%d" % i, steps=rnd.randint(4, 9), with_construct=False) for i in range(n)]
-    gl.run_grid(ctx, [("hist", scens)], gl.OBS_NODAL, "C07")
+    scens += [scale_history(rnd, "s%d" % i) for i in range(n // 3)]
+    gen = gl.mc_and_scripts(ctx, ['seq', 'localp1', 'localp2', 'wavelet', 'globalleja', 'fourier'], rnd, 150 if ctx.quick else 3000, maxlen=None if ctx.quick else 5, genlen=3 if ctx.quick else 4, mc=True)
+    gl.run_grid(ctx, gen + [("hist", scens)], gl.OBS_NODAL, "C07")
     ctx.assume("flagged sets are derived by the spec from logged normalised coefficient ratios (observer); tolerances are placed between distinct ratios")
 
 
